@@ -699,17 +699,26 @@ pub fn exercise(l: &Loaded) {
             if nodes.len() >= 2 {
                 let first = *nodes.keys().min().unwrap();
                 let last = *nodes.keys().max().unwrap();
-                let _ = c.index_value(first - chrono::Duration::days(1));
+                let day = chrono::Duration::days(1);
+                if let Some(d) = first.checked_sub_signed(day) {
+                    let _ = c.index_value(d);
+                }
                 if !null {
                     // (the stored order of a loaded document need not be ascending: ask at
-                    // both ends, beyond them and in between)
+                    // both ends, beyond them and in between; dates stay representable)
                     for d in [
-                        first,
-                        first + chrono::Duration::days(1),
-                        first + (last - first) / 2,
-                        last,
-                        last + chrono::Duration::days(1),
-                    ] {
+                        Some(first),
+                        first.checked_add_signed(day),
+                        {
+                            let (a, b) = (first.and_utc().timestamp(), last.and_utc().timestamp());
+                            chrono::DateTime::from_timestamp(a + (b - a) / 2, 0).map(|d| d.naive_utc())
+                        },
+                        Some(last),
+                        last.checked_add_signed(day),
+                    ]
+                    .into_iter()
+                    .flatten()
+                    {
                         let _ = c.index_value(d);
                     }
                 }
@@ -737,9 +746,11 @@ pub fn exercise(l: &Loaded) {
                 .unwrap_or_default();
             if keys.len() >= 2 {
                 let (first, last) = (*keys.iter().min().unwrap(), *keys.iter().max().unwrap());
-                if last.checked_sub(first).is_some() && first.abs() < 4_000_000_000_000 && last.abs() < 4_000_000_000_000 {
+                if last.checked_sub(first).is_some() && first.abs() < 8_000_000_000_000 && last.abs() < 8_000_000_000_000 {
                     for t in [first - 86_400, first, first + 86_400, first + (last - first) / 2, last, last + 86_400] {
-                        let _ = c.index_value(&ts_to_ndt(t));
+                        if let Some(d) = chrono::DateTime::from_timestamp(t, 0) {
+                            let _ = c.index_value(&d.naive_utc());
+                        }
                     }
                 }
             }
